@@ -156,7 +156,11 @@ def get_blocks_in_file(filename):
     header = read_header(filename)
     with open(filename, "rb") as f:
         count = 0
-        block_read_size = int(512 * np.ceil((80 * (len(header) + 1)) / 512)) + int(header['BLOCSIZE'])
+        # Headers are zero-padded to a multiple of 512 bytes only with DIRECTIO
+        header_size = 80 * (len(header) + 1)
+        if int(header.get('DIRECTIO', 0)) != 0:
+            header_size = int(512 * np.ceil(header_size / 512))
+        block_read_size = header_size + int(header['BLOCSIZE'])
         while f.read(block_read_size):
 #             chunk = f.read(block_read_size)
 #             if len(chunk) == 0:
